@@ -29,6 +29,7 @@ import (
 	"strconv"
 	"strings"
 	"sync"
+	"unicode/utf8"
 
 	"github.com/emersion/go-message/textproto"
 	"github.com/emersion/go-sasl"
@@ -282,6 +283,16 @@ func (s *Session) startDelivery(ctx context.Context, from string, opts smtp.Mail
 		}
 	}
 
+	// RFC 6531 addresses are UTF-8. Anything else cannot be represented
+	// faithfully further down (e.g. in the queue's on-disk metadata).
+	if !utf8.ValidString(from) {
+		return "", &exterrors.SMTPError{
+			Code:         553,
+			EnhancedCode: exterrors.EnhancedCode{5, 1, 7},
+			Message:      "Sender address is not valid UTF-8",
+		}
+	}
+
 	// Decode punycode, normalize to NFC and case-fold address.
 	cleanFrom := from
 	if from != "" {
@@ -476,6 +487,15 @@ func (s *Session) rcpt(ctx context.Context, to string, opts *smtp.RcptOptions) e
 			Code:         553,
 			EnhancedCode: exterrors.EnhancedCode{5, 6, 7},
 			Message:      "SMTPUTF8 is required for non-ASCII recipients",
+		}
+	}
+	// RFC 6531 addresses are UTF-8. Anything else cannot be represented
+	// faithfully further down (e.g. in the queue's on-disk metadata).
+	if !utf8.ValidString(to) {
+		return &exterrors.SMTPError{
+			Code:         501,
+			EnhancedCode: exterrors.EnhancedCode{5, 1, 3},
+			Message:      "Recipient address is not valid UTF-8",
 		}
 	}
 	cleanTo, err := address.CleanDomain(to)
